@@ -41,6 +41,7 @@ type Profile struct {
 	Carriers            int                            // percentage chance of class A / class B carriers inside cells, captions, tweets
 	TablesInLists       int                            // weight of data tables as the (only) content of list items and quotes
 	InlineBlocksInCells bool                           // cells with adjacent inline elements styled display:block
+	NoSymbolLinks       bool                           // no links whose text is a bare symbol (C08 identifies word-less text by its characters)
 	RowGaps             bool                           // comments / scripts between the rows and cells of data tables
 	EscapedText         bool                           // pre blocks may hold escaped markup as visible text
 	EmptyCells          bool                           // data tables may hold empty cells and spacer rows
@@ -201,7 +202,7 @@ func (g *G) inline(k int) string {
 		case "font":
 			parts = append(parts, `<font color="red"`+g.at("font")+">"+g.words(n)+"</font>")
 		case "a":
-			if g.intn(0, 9, "asym") == 0 {
+			if !g.P.NoSymbolLinks && g.intn(0, 9, "asym") == 0 {
 				// a link whose text holds no letter or digit
 				parts = append(parts, g.words(n)+` <a href="`+g.url("a")+`"`+g.at("a")+">"+g.pick("asymt", "»", "*", "¶", "§", "·", "»»")+"</a>")
 			} else {
